@@ -146,8 +146,8 @@ func (g *c13Gen) personChannel() c13Chan {
 	}
 	return g.chans[3+g.rng.IntN(2)]
 }
-func c13ChanKey(c c13Chan) string      { return fmt.Sprintf("%d/%s/%d", c.HS, c.ID, c.Type) }
-func (g *c13Gen) small(n int) uint64     { return uint64(g.rng.IntN(n)) }
+func c13ChanKey(c c13Chan) string    { return fmt.Sprintf("%d/%s/%d", c.HS, c.ID, c.Type) }
+func (g *c13Gen) small(n int) uint64 { return uint64(g.rng.IntN(n)) }
 
 // ---- plain row commands -------------------------------------------------------
 
